@@ -10,7 +10,7 @@ use stateright::{Checker, Model, Property};
 use std::cell::RefCell;
 use std::collections::BTreeMap;
 
-pub const NAMES: [&str; 3] = ["abs", "length", "foo"];
+pub const NAMES: [&str; 4] = ["abs", "foo", "normalize_whitespace_left", "normalize_whitespace_right"];
 
 #[derive(Clone, Copy, Debug, PartialEq, Eq, Hash)]
 pub enum Kind {
@@ -28,12 +28,12 @@ pub enum Op {
 
 pub fn all_ops() -> Vec<Op> {
     let mut v = Vec::new();
-    for n in 0..3u8 {
+    for n in 0..NAMES.len() as u8 {
         for k in [Kind::A, Kind::B, Kind::Sig] {
             v.push(Op::Register(n, k));
         }
     }
-    for n in 0..3u8 {
+    for n in 0..NAMES.len() as u8 {
         v.push(Op::Deregister(n));
     }
     v.push(Op::Builtins);
@@ -101,15 +101,17 @@ pub fn real_registry(h: &[Op]) -> Runtime {
     rt
 }
 
-pub const PROBES: [(&str, &str); 8] = [
+pub const PROBES: [(&str, &str); 10] = [
     ("abs", "abs(`-1`)"),
     ("abs", "abs('ab')"),
     ("length", "length('ab')"),
-    ("length", "length(`-1`)"),
+    ("normalize_whitespace_left", "normalize_whitespace_left(`-1`)"),
     ("foo", "foo(`-1`)"),
     ("foo", "foo('ab')"),
     ("type", "type(`1`)"),
     ("abs", "[abs(`-2`), length(`[1]`)]"),
+    ("normalize_whitespace_right", "normalize_whitespace_right('ab')"),
+    ("normalize_whitespace_lef", "normalize_whitespace_lef(`1`)"),
 ];
 
 fn expected_probe(reg: &BTreeMap<String, Entry>, probe: &str) -> Result<Value, ErrClass> {
@@ -158,7 +160,7 @@ impl Reg {
         let reg = ref_registry(&hops);
         let r = guarded(|| {
             let rt = real_registry(&hops);
-            for name in NAMES.iter().chain(["type", "sort_by", "nosuch"].iter()) {
+            for name in NAMES.iter().chain(["type", "sort_by", "nosuch", "length", "normalize_whitespace_", "normalize_whitespace_leftx", "ab", "abs "].iter()) {
                 let have = rt.get_function(name).is_some();
                 let want = reg.contains_key(*name);
                 if have != want {
@@ -357,6 +359,7 @@ fn check_signatures(st: &mut Stats) {
     classes.extend(vec![
         ("array-of-number-arrays", "`[[1],[2]]`"), ("array-of-mixed-arrays", "`[[1],[\"a\"]]`"), ("number-string-number", "`[1,\"a\",2]`"),
         ("array-of-objects", "`[{\"a\":1},{}]`"), ("object-then-number", "`[{},1]`"),
+        ("array-containing-expref", "[a, &a]"), ("nested-array-containing-expref", "[[&a]]"),
     ]);
     for (tname, at, ty) in sig_types() {
         for variadic in [false, true] {
@@ -391,15 +394,44 @@ fn check_signatures(st: &mut Stats) {
                 let got = guarded(|| rt.compile(&src).unwrap().search(value_to_var(&json!({"a": 1}))).map(|v| var_to_value(&v)));
                 let invoked = LOG.with(|l| l.borrow().len());
                 // reference: arity, then every argument admitted
-                let p = rparse::parse(&src).unwrap();
-                let args: Vec<V> = match &p.tree.k {
-                    rparse::K::Function(_, a, _) => a.iter().map(|x| Eval::builtin().ev(x, &json!({"a": 1})).unwrap()).collect(),
+                // arguments written as a multi-select list with an expref inside only parse under the
+                // known deviation "expref outside a function argument": use the relaxed reference parser
+                let relaxed = rparse::Opts { relax: crate::gram::Relax { expref_anywhere: true, ..Default::default() }, ..Default::default() };
+                let p = rparse::parse_with(&src, relaxed).unwrap();
+                let arg_nodes: Vec<rparse::N> = match &p.tree.k {
+                    rparse::K::Function(_, a, _) => a.clone(),
                     _ => unreachable!(),
                 };
-                let arity_ok = if variadic { !args.is_empty() } else { args.len() == 1 };
+                fn holds_expref(n: &rparse::N) -> bool {
+                    match &n.k {
+                        rparse::K::Expref(_) => true,
+                        rparse::K::MultiList(v) => v.iter().any(holds_expref),
+                        _ => false,
+                    }
+                }
+                /// does the parameter type admit the value this argument node denotes?  (arrays that
+                /// hold expression references cannot be represented as JSON, so decide on the node)
+                fn admits_node(t: &Ty, n: &rparse::N) -> bool {
+                    match &n.k {
+                        rparse::K::Expref(_) => match t {
+                            Ty::Expref => true,
+                            Ty::Union(ts) => ts.iter().any(|u| admits_node(u, n)),
+                            _ => false,
+                        },
+                        rparse::K::MultiList(items) if holds_expref(n) => match t {
+                            Ty::Any | Ty::Array => true,
+                            Ty::ArrayOf(e) => items.iter().all(|x| admits_node(e, x)),
+                            Ty::Union(ts) => ts.iter().any(|u| admits_node(u, n)),
+                            _ => false,
+                        },
+                        _ => t.admits(&Eval::builtin().ev(n, &json!({"a": 1})).unwrap()),
+                    }
+                }
+                let admits: Vec<bool> = arg_nodes.iter().map(|x| admits_node(&ty, x)).collect();
+                let arity_ok = if variadic { !admits.is_empty() } else { admits.len() == 1 };
                 let want: Result<(), ErrClass> = if !arity_ok {
                     Err(ErrClass::InvalidArity)
-                } else if args.iter().all(|a| ty.admits(a)) {
+                } else if admits.iter().all(|a| *a) {
                     Ok(())
                 } else {
                     Err(ErrClass::InvalidType)
@@ -430,7 +462,7 @@ fn check_signatures(st: &mut Stats) {
 
 pub fn run(tier: Tier) -> i32 {
     let mut rep = Report::new("C15", tier);
-    let depth = tier.pick(5, 7);
+    let depth = tier.pick(4, 6);
     let model = Reg { depth, ops: all_ops() };
     let nops = model.ops.len();
     let mut st = Stats::default();
